@@ -30,6 +30,7 @@ func runC02(p *core.Program, r *core.Report) {
 	c02R4(p, r, pl)
 	c02R5(p, r, pl)
 	c02R6(p, r, pl)
+	c02A5(p, r, pl)
 }
 
 // errBranch describes `err != nil` style tests of an error variable.
@@ -1177,4 +1178,110 @@ func c02R6(p *core.Program, r *core.Report, pl *pipeline) {
 	if n == 0 {
 		r.OK(rule, nil, "no recover() on the generation path", token.NoPos, "a panic of a generator ends the run")
 	}
+}
+
+// c02A5: "Execute returns an error that names ... the syntax position": the failure path of the file writer prints the
+// lines around the first syntax error. An index out of range there turns the error return into a panic. Every index
+// expression of the writer (and the unexported helpers it calls) is bounded; indexing the lines of the rendered source by
+// a value below the error's line number is accepted by a reviewed fact: the parser reports 1-based line numbers of the
+// very bytes that were split, so Line <= number of lines.
+func c02A5(p *core.Program, r *core.Report, pl *pipeline) {
+	const rule = "A5"
+	r.Floor(rule, 1)
+	w := pl.write
+	seen := map[*core.Func]bool{}
+	var fs []*core.Func
+	for _, f := range w.AllFuncs() {
+		if !seen[f] {
+			seen[f] = true
+			fs = append(fs, f)
+		}
+	}
+	// helpers that were not inlined
+	root := w
+	if w.Origin != nil {
+		root = w.Origin
+	}
+	for h := range reachableFrom(p, root) {
+		if h.Pkg == w.Pkg && h.Decl != nil && !h.Decl.Name.IsExported() && h != root && !seen[h] && !w.Has(h) {
+			// only helpers that index something
+			seen[h] = true
+			fs = append(fs, h)
+		}
+	}
+	n := 0
+	for _, f := range fs {
+		if f.Body == nil {
+			continue
+		}
+		n += a5Check(r, rule, f, belowErrorLineTactic)
+	}
+	if n == 0 {
+		r.OK(rule, w, "the file writer indexes nothing", w.Node().Pos(), "no index or slice expression")
+	}
+}
+
+// belowErrorLineTactic: `lines[i]` with lines := bytes.Split(data, "\n") (or a parameter of [][]byte / []string type
+// holding it) and a dominating `i < L` (or `i <= L-1`), L being the Line of a scanner.Error / token.Position.
+func belowErrorLineTactic(bc *boundsCtx, e ast.Expr, base ast.Expr, need needLen) (string, bool) {
+	if need.Idx == nil || need.Off != 0 || need.Slice {
+		return "", false
+	}
+	iv := core.VarOf(bc.info, need.Idx)
+	bv := core.VarOf(bc.info, base)
+	if iv == nil || bv == nil {
+		return "", false
+	}
+	// the base holds lines: split at "\n", or a parameter (the caller's lines)
+	isLines := isParamOf(bc.f.Root(), bv)
+	if d, ok := core.SingleDef(bc.info, bc.f.Root().Body, bv); ok {
+		if c := core.AsCall(bc.info, d.Rhs, "bytes.Split", "strings.Split"); c != nil && len(c.Args) == 2 {
+			sep := ast.Unparen(c.Args[1])
+			if conv, isCall := sep.(*ast.CallExpr); isCall && len(conv.Args) == 1 {
+				if tv, isT := bc.info.Types[conv.Fun]; isT && tv.IsType() {
+					sep = conv.Args[0] // []byte("\n")
+				}
+			}
+			if constStrIs(bc.info, sep, "\n") {
+				isLines = true
+			}
+		}
+	}
+	if !isLines {
+		return "", false
+	}
+	lo, hasLo := bc.minStart(iv)
+	nonNeg := hasLo && lo >= 0
+	isLine := func(x ast.Expr) bool {
+		x, _ = core.Resolve(bc.info, bc.f.Root().Body, x)
+		sel, ok := ast.Unparen(x).(*ast.SelectorExpr)
+		if !ok || sel.Sel.Name != "Line" {
+			return false
+		}
+		t := bc.info.TypeOf(sel.X)
+		return t != nil && core.NamedTypeName(t) == "go/token.Position"
+	}
+	below := false
+	for _, fct := range bc.g.FactsAt(bc.at) {
+		b, ok := ast.Unparen(fct.Cond).(*ast.BinaryExpr)
+		if !ok || fct.Tag != nil {
+			continue
+		}
+		op := b.Op
+		if !fct.Val {
+			op = negate(op)
+		}
+		if core.VarOf(bc.info, b.X) == iv && op == token.LSS && isLine(b.Y) {
+			below = true
+		}
+		if core.VarOf(bc.info, b.X) == iv && (op == token.GTR || op == token.GEQ) {
+			if k, isC := core.ConstInt(bc.info, b.Y); isC && ((op == token.GTR && k >= -1) || (op == token.GEQ && k >= 0)) {
+				nonNeg = true
+			}
+		}
+	}
+	if below && nonNeg {
+		return "T8 index below the 1-based line number the parser reported for the very source that was split into these lines (Line <= number of lines), and not negative", true
+	}
+	return "", false
 }
